@@ -17,6 +17,7 @@ FORMATS = {"FORMAT_FA": "fasta", "FORMAT_MSF": "msf", "FORMAT_CLU": "clu"}
 
 
 def describe(ck):
+    ck.rule("R06h", "the test that makes a block line the next row of read_clu / read_msf is equivalent to `first character is not a blank` for every byte value")
     ck.rule("R06a", "for each format: every token the reader searches for is a substring of a literal the writer of that format emits, and no detection token of format X occurs in a writer literal of format Y")
     ck.rule("R06b", "every copy into msa_seq.name in a reader is bounded by the buffer it writes into (MSA_NAME_LEN-1 guard or allocation size = copy length)")
     ck.rule("R06c", "rows are associated with sequences by position or full-length name comparison; a strncmp whose length is the strlen of one operand (prefix match) does not select a sequence")
@@ -214,6 +215,52 @@ def r06a(ck, prog):
     ck.floor("R06a", n, 10, "reader tokens")
 
 
+def r06h(ck, prog):
+    """a block line is a row exactly when it is not indented: in read_clu / read_msf the test that decides whether a non-empty
+    line of a block is the next row (the if whose branch advances active_seq) is, for every value of the first character,
+    equivalent to `!isspace(line[0])` - the writers start every row line with the name and every other line with a blank.
+    A test that also looks at the rest of the line is not decided (no verdict)."""
+    from ..bytedom import Sym, ev
+    n = 0
+    for rname in ("read_clu", "read_msf"):
+        F = prog.fn(rname)
+        fns = [F] + [prog.functions[c.callee] for c in F.body.calls() if c.callee in prog.functions and prog.functions[c.callee].static
+                     and prog.functions[c.callee].file == F.file]
+        tests = []
+        for G in fns:
+            for u in G.body.find("UnaryOperator"):
+                if u.d["op"] == "++" and u.kids[0].strip().k == "DeclRefExpr" and u.kids[0].strip().d["name"] == "active_seq":
+                    ifs = [x for x in u.ancestors() if x.k == "IfStmt" and u.within(x.child("then")) and any(
+                        y.ty.replace("const ", "") == "char" and y.kids[1].strip(casts=True).cv == 0 for y in x.child("cond").find("ArraySubscriptExpr"))]
+                    if ifs:
+                        tests.append((G, ifs[0]))
+        if not tests:
+            raise AnalysisBroken("R06h: the row test of %s (the if that advances active_seq) was not found" % rname)
+        for G, ifs in tests:
+            cond = ifs.child("cond")
+            subs = [x for x in cond.find("ArraySubscriptExpr") if x.ty.replace("const ", "") == "char" and x.kids[1].strip(casts=True).cv == 0]
+            n += 1
+            where = site(prog, ifs, "row test")
+            if not subs:
+                raise AnalysisBroken("R06h: the row test of %s does not look at the first character of the line (%s)" % (rname, cond.text()[:50]))
+            sym = Sym(text=subs[0].text(), ty="char")
+            wrong = []
+            for b in range(1, 128):
+                v = ev(cond, sym, b)
+                if v is None:
+                    raise AnalysisBroken("R06h: the row test of %s (%s) depends on more than the first character; whether every row "
+                                         "line the writers emit passes it is not decided" % (rname, cond.text()[:60]))
+                if bool(v) != (b not in (32, 9, 10, 11, 12, 13)):
+                    wrong.append(b)
+            ck.inst("R06h", where, "%s: a line is a row iff %s; agrees with `first character is not a blank` for %d of 127 values" % (
+                rname, cond.text()[:40], 127 - len(wrong)), prog.config)
+            if wrong:
+                ck.violation("R06h", "R06h/%s/row-test" % rname, where,
+                             "%s treats a block line starting with %r as %s: the writers start every row with its name (any non-blank "
+                             "character) and every other line with a blank" % (rname, chr(wrong[0]), "no row" if wrong[0] not in (32, 9) else "a row"), prog.config)
+    ck.floor("R06h", n, 2, "row tests of the block readers")
+
+
 def r06b(ck, prog):
     lim = prog.macro_int("MSA_NAME_LEN")
     n = 0
@@ -353,6 +400,7 @@ def run(ck, progs):
         ck.attempt(r06a, ck, prog)
         ck.attempt(r06b, ck, prog)
         ck.attempt(r06c, ck, prog)
+        ck.attempt(r06h, ck, prog)
         from . import c15
         before = len(ck.instances)
         ck.attempt(c15.r15e, ck, prog)
